@@ -33,6 +33,10 @@ EXISTENCE_OK = {
 }
 
 
+UNORDERED_HELPERS: Set[str] = set()
+PURE_PATH_METHODS = {"relative_to", "samefile", "is_relative_to", "resolve", "exists", "is_dir", "is_file", "lower", "upper", "startswith", "endswith"}
+
+
 def _is_unordered_expr(e: ast.AST, tainted: Set[str]) -> bool:
     if isinstance(e, (ast.Set, ast.SetComp)):
         return True
@@ -40,6 +44,8 @@ def _is_unordered_expr(e: ast.AST, tainted: Set[str]) -> bool:
         n = dotted(e.func) or ""
         if n in ("set", "frozenset"):
             return True
+        if n.split(".")[-1] in UNORDERED_HELPERS:
+            return True  # a private helper that hands back an unordered collection: the caller has to sort
         if isinstance(e.func, ast.Attribute) and e.func.attr in ("rglob", "glob", "iterdir"):
             return True
         if n in ("list", "tuple", "iter", "reversed", "itertools.chain", "chain", "filter", "map", "enumerate", "zip", "product", "itertools.product") and e.args:
@@ -67,6 +73,7 @@ def _annot_is_set(a: Optional[ast.AST]) -> bool:
 def rule_r1(ctx: Ctx) -> None:
     repo = ctx.repo
     ctx.rule("C10.R1", "order taint: unordered collections (sets, rglob results) are sorted before they are returned or drive an order-sensitive loop", min_instances=6)
+    UNORDERED_HELPERS.clear()
     funcs = [f for f in repo.all_functions().values() if f.module.name in MODS]
     # interprocedural seed: parameters that receive unordered arguments
     tainted_params: Dict[str, Set[str]] = {}
@@ -96,7 +103,13 @@ def rule_r1(ctx: Ctx) -> None:
                         vals = list(n.value.elts)
                     for v in vals:
                         if _is_unordered_expr(v, tainted) and not _sorted_wrapped(v):
-                            results.append((fn, "return %s" % norm(v)[:60], False, "an unordered collection is returned without sorting", n))
+                            if fn.name.startswith("_") and not fn.name.startswith("__") and fn.cls is None and len(vals) == 1:
+                                # a private helper: its callers are judged instead (the call is an unordered expression)
+                                if fn.name not in UNORDERED_HELPERS:
+                                    UNORDERED_HELPERS.add(fn.name)
+                                results.append((fn, "return %s" % norm(v)[:60], True, "private helper returning an unordered collection: every caller is checked for sorting", n))
+                            else:
+                                results.append((fn, "return %s" % norm(v)[:60], False, "an unordered collection is returned without sorting", n))
                         elif _is_unordered_expr(_strip_sort(v), tainted):
                             results.append((fn, "return %s" % norm(v)[:60], True, "sorted before being returned", n))
                 if isinstance(n, ast.For) and _is_unordered_expr(n.iter, tainted) and not _sorted_wrapped(n.iter):
@@ -140,6 +153,11 @@ def _locals_tainted(fn: FuncInfo, tainted_params: Dict[str, Set[str]], seed: Opt
                 tgt, val = st.targets[0].id, st.value
             elif isinstance(st, ast.AnnAssign) and isinstance(st.target, ast.Name):
                 tgt, val, ann = st.target.id, st.value, st.annotation
+            if isinstance(st, ast.For) and _is_unordered_expr(st.iter, tainted) and not _sorted_wrapped(st.iter):
+                # a local list filled while walking an unordered collection holds its elements in that (arbitrary) order
+                for c in ast.walk(st):
+                    if isinstance(c, ast.Call) and isinstance(c.func, ast.Attribute) and c.func.attr in ("append", "extend") and isinstance(c.func.value, ast.Name):
+                        tainted.add(c.func.value.id)
             if tgt is None:
                 continue
             if _annot_is_set(ann) or (val is not None and _is_unordered_expr(val, tainted) and not _sorted_wrapped(val)):
@@ -182,15 +200,27 @@ def _loop_is_commutative(loop: ast.For) -> Tuple[bool, str]:
                 return True
             if isinstance(f, ast.Attribute) and f.attr in COMMUTATIVE_METHODS:
                 return True
+            if isinstance(f, ast.Attribute) and f.attr in PURE_PATH_METHODS:
+                return True  # a question asked for its exception / value only
+            if isinstance(f, ast.Attribute) and f.attr in ("append", "extend") and isinstance(f.value, ast.Name):
+                return True  # collects into a local list, which thereby becomes unordered itself (see _locals_tainted)
             return False
         if isinstance(s, ast.If):
             return all(ok_stmt(x) for x in s.body + s.orelse)
         if isinstance(s, ast.For):
             return all(ok_stmt(x) for x in s.body)
+        if isinstance(s, (ast.Raise, ast.Continue)):
+            # rejecting as soon as an offending element is met: whether the loop raises does not depend on the order (which
+            # element is named in the message does; the property speaks about results)
+            return True
+        if isinstance(s, ast.Try):
+            return all(ok_stmt(x) for x in s.body + s.orelse + s.finalbody) and all(all(ok_stmt(x) for x in h.body) for h in s.handlers)
+        if isinstance(s, ast.Assign) and all(isinstance(t, ast.Name) for t in s.targets):
+            return True  # a loop-local temporary
         return False
 
     if all(ok_stmt(s) for s in loop.body):
-        return True, "the loop body only adds to sets / logs (order-insensitive)"
+        return True, "the loop body only adds to sets / logs / rejects (order-insensitive)"
     return False, "the loop body has order-sensitive effects"
 
 
@@ -216,143 +246,109 @@ def rule_r2(ctx: Ctx) -> None:
 
 
 def rule_r3(ctx: Ctx) -> None:
-    repo = ctx.repo
+    """what the entry points enumerate and return, observed over an abstract file system (syntactic paths, APath.FS)"""
+    from ..absint import APath, Raised, call_fn
+    from ..fold import Sym, Unfoldable
+    from . import reader_common as R
+
     ctx.rule("C10.R3", "read_namespace enumerates *.dsdl and *.uavcan recursively under exactly the root directory and returns only the direct types; read_files returns (direct, transitive)", min_instances=3)
     cons = ctx.func("_namespace._construct_dsdl_definitions_from_namespaces")
     mod = cons.module
-    globs = []
-    for c in calls_in(cons.node):
-        if isinstance(c.func, ast.Attribute) and c.func.attr in ("rglob", "glob"):
-            arg = c.args[0] if c.args else None
-            val = None
-            if arg is not None:
-                from ..fold import Folder, Unfoldable
-
-                try:
-                    val = Folder({}, repo, mod).fold(arg)
-                except Unfoldable:
-                    val = norm(arg)
-                if val == "<fstring>":
-                    # f"*{SUFFIX}" constants
-                    e = mod.assigns.get(norm(arg))
-                    if isinstance(e, ast.JoinedStr):
-                        parts = []
-                        for v in e.values:
-                            if isinstance(v, ast.Constant):
-                                parts.append(v.value)
-                            elif isinstance(v, ast.FormattedValue):
-                                try:
-                                    parts.append(str(Folder({}, repo, mod).fold(v.value)))
-                                except Unfoldable:
-                                    parts.append("?")
-                        val = "".join(parts)
-            globs.append((c.func.attr, val, norm(c.func.value)))
-    loopvars = {norm(st.target): norm(st.iter) for st in walk_no_nested(cons.node) if isinstance(st, ast.For)}
-    want = {("rglob", "*.dsdl"), ("rglob", "*.uavcan")}
-    roots_ok = all(loopvars.get(g[2]) == cons.params[0] for g in globs)
-    ctx.check({(g[0], g[1]) for g in globs} == want and roots_ok, cons.short, "globs: %s over %s" % (sorted((g[0], g[1]) for g in globs), sorted(set(g[2] for g in globs))), "every definition file (both suffixes) at any depth under each given root is listed", cons.where())
-    rn = ctx.func("_namespace.read_namespace")
-    tcalls = [c for c in calls_in(rn.node) if dotted(c.func) == "_construct_dsdl_definitions_from_namespaces"]
-    good = len(tcalls) == 1 and norm(tcalls[0].args[0]) == "[%s]" % rn.params[0]
-    rets = [r for r in walk_no_nested(rn.node) if isinstance(r, ast.Return) and r.value is not None and norm(r.value) != "[]"]
-    good = good and len(rets) == 1 and isinstance(rets[0].value, ast.Attribute) and rets[0].value.attr == "direct" and isinstance(rets[0].value.value, ast.Call) and dotted(rets[0].value.value.func) == "_complete_read_function" and norm(rets[0].value.value.args[0]) in [norm(st.targets[0]) for st in walk_no_nested(rn.node) if isinstance(st, ast.Assign) and st.value in tcalls]
-    ctx.check(good, rn.short, "targets = definitions under [root]; returns <read>.direct", "exactly the definitions under the root namespace directory are returned - nothing from lookup directories", rn.where())
+    files = [
+        "/w/ns/A.1.0.dsdl", "/w/ns/B.1.0.uavcan", "/w/ns/sub/deep/er/C.2.3.dsdl", "/w/ns/sub/D.1.0.dsdl", "/w/ns/sub/deep/L.1.0.uavcan", "/w/ns/readme.txt", "/w/ns/sub/E.1.0.dsdl.bak",
+        "/w/other/X.1.0.dsdl", "/w/nsx/Y.1.0.dsdl", "/w/ns2/Z.1.0.dsdl",
+    ]
+    saved = list(APath.FS)
+    APath.FS = list(files)
+    try:
+        log: List[Any] = []
+        hook = R._hook(ctx, mod, log, record=["_complete_read_function", "_construct_lookup_directories_path_list", "normalize_paths_argument_to_list"], results={
+            "dsdl_file_sort": lambda xs: list(xs), "file_sort": lambda xs: list(xs),  # the order is C10.R2's question
+            "_complete_read_function": lambda *a, **k: Sym(direct=["DIRECT-TYPES"], transitive=["TRANSITIVE-TYPES"]),
+            "_construct_lookup_directories_path_list": lambda *a, **k: ["LOOKUP-DIRS"],
+            "normalize_paths_argument_to_list": lambda x=None: [] if x is None else list(x) if isinstance(x, (list, tuple)) else [x],
+        })
+        try:
+            got = call_fn(ctx, cons, [[APath("/w/ns"), APath("/w/ns2")]], hook=hook, keep=tuple(mod.functions))
+        except (Raised, Unfoldable) as ex:
+            raise AnalysisError("%s: cannot evaluate over the abstract file system: %s" % (cons.short, ex))
+        paths = sorted(str(d.file_path if hasattr(d, "file_path") else d._file_path) for d in got)
+        want = sorted(["/w/ns/A.1.0.dsdl", "/w/ns/B.1.0.uavcan", "/w/ns/sub/deep/er/C.2.3.dsdl", "/w/ns/sub/D.1.0.dsdl", "/w/ns/sub/deep/L.1.0.uavcan", "/w/ns2/Z.1.0.dsdl"])
+        ctx.count()
+        ctx.check(paths == want, cons.short, "lists %s" % paths, "every definition file (both suffixes) at any depth under each given root is listed - and nothing else", cons.where(), {"expected": want})
+        # read_namespace: the targets are the definitions under the root, the result is the direct part of what was read
+        rn = ctx.func("_namespace.read_namespace")
+        del log[:]
+        try:
+            res = call_fn(ctx, rn, [APath("/w/ns"), [APath("/w/other")]], hook=hook, keep=tuple(mod.functions))
+        except (Raised, Unfoldable) as ex:
+            raise AnalysisError("%s: cannot evaluate over the abstract file system: %s" % (rn.short, ex))
+        crf = [(a, k) for name, a, k in log if name == "_complete_read_function"]
+        tpaths = sorted(str(d._file_path if hasattr(d, "_file_path") else d.file_path) for d in (crf[0][0][0] if crf else []))
+        ctx.count()
+        ctx.check(len(crf) == 1 and tpaths == [p_ for p_ in want if p_.startswith("/w/ns/")] and res == ["DIRECT-TYPES"], rn.short, "targets = definitions under [root]; returns <read>.direct", "exactly the definitions under the root namespace directory are returned - nothing from lookup directories", rn.where(), {"targets": tpaths, "returned": repr(res)[:80]})
+        # an empty namespace yields an empty list without reading anything
+        APath.FS = ["/w/other/X.1.0.dsdl"]
+        del log[:]
+        res = call_fn(ctx, rn, [APath("/w/ns")], hook=hook, keep=tuple(mod.functions))
+        ctx.check(res == [] and not [1 for name, a, k in log if name == "_complete_read_function"], rn.short, "empty namespace -> []", "an empty namespace is not an error", rn.where(), nontrivial=False)
+    finally:
+        APath.FS = saved
     rf = ctx.func("_namespace.read_files")
-    rets = [norm(r.value) for r in walk_no_nested(rf.node) if isinstance(r, ast.Return) and r.value is not None]
-    ctx.check("(definitions.direct, definitions.transitive)" in rets, rf.short, str(rets), "read_files returns the requested types and the rest of their dependency closure", rf.where())
+    rets = [norm(r.value) for r in walk_no_nested(ctx.inl(rf)) if isinstance(r, ast.Return) and r.value is not None]
+    ctx.check(any(x.replace(" ", "") in ("(definitions.direct,definitions.transitive)",) for x in rets), rf.short, str(rets), "read_files returns the requested types and the rest of their dependency closure", rf.where())
 
 
 def rule_r4(ctx: Ctx) -> None:
-    ctx.rule("C10.R4", "direct/transitive bookkeeping: disjoint sets, requested => direct (promotion), never demoted, read at level > 0 and not requested => transitive", min_instances=1)
+    """the reader's bookkeeping, observed on abstract worlds of definition files (reader_common)"""
+    from . import reader_common as R
+
+    ctx.rule("C10.R4", "direct/transitive bookkeeping: requested => direct (also when met earlier as a dependency), read as a dependency and not requested => transitive, the sets are disjoint, every definition of the closure is read and nothing else, whatever the order of the targets", min_instances=1)
     fn = ctx.func("_namespace_reader._read_definitions")
-    loops = [st for st in body_without_docstring(fn.node) if isinstance(st, ast.For) and norm(st.iter) == fn.params[0]]
-    if len(loops) != 1:
-        raise AnalysisError("_read_definitions: target loop not found")
-    body = loops[0].body
-    paths = PathEnumerator().run(body)
-    read_var = None
-    for st in ast.walk(loops[0]):
-        if isinstance(st, ast.Assign) and isinstance(st.value, ast.Call) and isinstance(st.value.func, ast.Attribute) and st.value.func.attr == "read":
-            read_var = norm(st.targets[0])
-    tvar = norm(loops[0].target)
 
-    def atom(e: Any) -> Any:
-        if isinstance(e, tuple):
-            if e[0] == "except":
-                return A("EXC:" + e[1])
-            raise AnalysisError("_read_definitions: unexpected marker %s" % e[0])
-        s = norm(e)
-        s = s.replace("file_pool.setdefault(%s.file_path, %s)" % (tvar, tvar), tvar)
-        table = {
-            "%s.composite_type is not None" % tvar: A("CACHED"),
-            "%s.composite_type in direct" % tvar: A("IN_D"),
-            "%s.composite_type in transitive" % tvar: A("IN_T"),
-            "level == 0": A("LEVEL0"),
-            "len(_pending_definitions) > 0": A("PENDING"),
-            "isinstance(%s, ReadableDSDLFile)" % tvar: f_not(A("BADARG")),
-        }
-        if s in table:
-            return table[s]
-        raise AnalysisError("_read_definitions: condition outside the abstraction: %s" % s)
+    def world() -> Any:
+        w = R.World()
+        C = R.ADef(w, "ns.C", 1, 0)
+        B = R.ADef(w, "ns.B", 1, 0, deps=[C])
+        E = R.ADef(w, "ns.E", 1, 0, deps=[C])
+        A = R.ADef(w, "ns.A", 1, 0, deps=[B, E])
+        D = R.ADef(w, "ns.D", 1, 0)
+        Z = R.ADef(w, "zz.Z", 1, 0, deps=[A])
+        return w, {"A": A, "B": B, "C": C, "D": D, "E": E, "Z": Z}
 
-    forms = [(p, path_formula(p, atom)) for p in paths]
+    def closure(ds: List[Any]) -> List[Any]:
+        out: List[Any] = []
+        work = list(ds)
+        while work:
+            d = work.pop(0)
+            if d not in out:
+                out.append(d)
+                work.extend(d.deps)
+        return out
+
     bad = []
-    n = 0
-    for v in valuations(["CACHED", "IN_D", "IN_T", "LEVEL0", "PENDING"], lambda v: not (v["IN_D"] and v["IN_T"]) and ((v["IN_D"] or v["IN_T"]) <= v["CACHED"])):
-        for keyerr in (False, True):
-            vv = dict(v)
-            vv["BADARG"] = False
-            vv["EXC:KeyError"] = keyerr
-            vv["EXC:Error"] = False
-            vv["EXC:Exception"] = False
-            taken = [p for p, f in forms if f_eval(f, vv)]
-            if not taken:
-                continue
-            n += 1
-            for p in taken:
-                d, t = v["IN_D"], v["IN_T"]
-                revisit = v["CACHED"] and (d or t)
-                consistent = True
-                for ev in p.events:
-                    if isinstance(ev, ast.Call) and isinstance(ev.func, ast.Attribute) and norm(ev.func.value) in ("direct", "transitive") and ev.func.attr in ("add", "remove", "discard"):
-                        which = norm(ev.func.value)
-                        if ev.func.attr == "add":
-                            if which == "direct":
-                                d = True
-                            else:
-                                t = True
-                        else:
-                            if which == "transitive":
-                                if not t and ev.func.attr == "remove" and not keyerr and not revisit:
-                                    consistent = False  # remove on an absent element raises KeyError: this path is the handler's
-                                if t and keyerr:
-                                    consistent = False
-                                t = False
-                            else:
-                                d = False
-                if not consistent:
-                    continue
-                # for a first visit the type read is new: it is in neither set unless the same type was read before
-                want_d = v["IN_D"] or v["LEVEL0"]
-                want_t = (v["IN_T"] and not v["LEVEL0"]) or (not revisit and not v["LEVEL0"] and not v["IN_D"])
-                if p.kind in ("raise",):
-                    continue
-                if (d, t) != (want_d, want_t) or (d and t):
-                    bad.append({"before": {"direct": v["IN_D"], "transitive": v["IN_T"], "cached": v["CACHED"], "level0": v["LEVEL0"]}, "after": {"direct": d, "transitive": t}, "expected": {"direct": want_d, "transitive": want_t}})
-    ctx.count(n)
-    ctx.check(not bad and read_var is not None, fn.short, "transition table over (cached, in direct, in transitive, level 0)", "direct and transitive stay disjoint; requested files end direct; nothing is demoted; dependencies end transitive", fn.where(), bad[:4])
-    # recursion on the pending dependencies one level deeper, then the pending set is cleared
-    rec = [c for c in calls_in(fn.node) if dotted(c.func) == "_read_definitions"]
-    good = len(rec) == 1 and any(k.arg == "level" and norm(k.value) == "level + 1" for k in rec[0].keywords) and all(any(k.arg == nm and norm(k.value) == nm for k in rec[0].keywords) for nm in ("direct", "transitive", "file_pool"))
-    ctx.check(good, fn.short, "recursion: level + 1, same direct / transitive / file_pool", "dependencies are read one level deeper into the same result sets", fn.where(), nontrivial=False)
-    cb = [c for c in ctx.repo.all_classes().values() if c.name == "_Callback" and c.module is fn.module]
-    good = False
-    if cb:
-        od = cb[0].methods.get("on_definition")
-        if od is not None:
-            src = norm(od.node)
-            good = "if %s.file_path not in file_pool" % od.params[2] in src and "_pending_definitions.add(%s)" % od.params[2] in src
-    ctx.check(good, fn.short + "._Callback.on_definition", "pending <- dependency unless its file is already pooled", "exactly the referenced definitions are scheduled for the transitive pass", fn.where())
+    cases = [["A"], ["A", "E"], ["E", "A"], ["B", "A"], ["Z", "C"], ["C", "Z"], ["D"], [], ["A", "A"], ["E", "B", "C"]]
+    for names in cases:
+        w, d = world()
+        targets = [d[n] for n in names]
+        out = R.run_reader(ctx, targets, list(d.values()))
+        ctx.count()
+        if out["raised"]:
+            raise AnalysisError("read_definitions over the abstract world raised %s" % out["raised"])
+        res = out["result"]
+        got_d, got_t = R.names_of(res.direct), R.names_of(res.transitive)
+        want_d = sorted({t.label for t in targets})
+        want_t = sorted({x.label for x in closure(targets)} - set(want_d))
+        read = sorted(set(w.reads()))
+        want_read = sorted({x.label for x in closure(targets)})
+        others = [(e[1].label, e[0]) for e in w.log if e[0] in ("text", "other")]
+        if got_d != want_d or got_t != want_t or read != want_read or others or set(got_d) & set(got_t):
+            bad.append({"targets": names, "direct": got_d, "transitive": got_t, "read": read, "expected direct": want_d, "expected transitive": want_t, "other accesses": others})
+        # what is returned are the very objects the reads produced
+        produced = {id(x.composite_type) for x in w.defs if x.composite_type is not None}
+        if any(id(t) not in produced for t in list(res.direct) + list(res.transitive)):
+            bad.append({"targets": names, "note": "a returned type was not produced by a read"})
+    ctx.check(not bad, fn.short, "direct / transitive over %d target lists" % len(cases), "requested definitions are direct, their dependencies transitive, the two are disjoint, and exactly the closure is read", fn.where(), bad[:3])
 
 
 def rule_r5(ctx: Ctx) -> None:
@@ -375,65 +371,58 @@ def rule_r5(ctx: Ctx) -> None:
 
 
 def rule_r6(ctx: Ctx) -> None:
+    """the directory-set check abstractly evaluated over sets of syntactic paths"""
+    from ..absint import APath, Raised, call_fn
+    from ..fold import Unfoldable
+    from . import reader_common as R
+
     repo = ctx.repo
-    ctx.rule("C10.R6", "root / lookup directory sets are rejected exactly when one lies inside another or (collisions disallowed) two distinct ones share a name ignoring case", min_instances=2)
+    ctx.rule("C10.R6", "root / lookup directory sets are rejected exactly when one lies inside another (at any depth) or (collisions disallowed) two distinct ones share a name ignoring case", min_instances=2)
     fn = ctx.func("_namespace._ensure_no_namespace_name_collisions_or_nested_root_namespaces")
-    chk = fn.nested.get("check_each")
-    if chk is None:
-        raise AnalysisError("anchor check_each missing")
-    paths = paths_of(chk.node, opaque=["path_tuple"])
-    pt = "path_tuple"
-
-    def atom(e: Any) -> Any:
-        if isinstance(e, tuple):
-            if e[0] == "except" and e[1] == "ValueError" and any("relative_to" in norm(x) for x in e[3]):
-                return f_not(A("IS_RELATIVE"))
-            raise AnalysisError("check_each: unexpected marker %s %s" % (e[0], e[1]))
-        s = norm(e)
-        table = {
-            "%s[0].samefile(%s[1])" % (pt, pt): A("SAMEFILE"),
-            "%s[1].samefile(%s[0])" % (pt, pt): A("SAMEFILE"),
-            "%s[0] == %s[1]" % (pt, pt): A("SAMEFILE"),
-            fn.params[1]: A("ALLOW"),
-            "%s[0].name.lower() == %s[1].name.lower()" % (pt, pt): A("NAME_CI_EQ"),
-            "%s[0].name == %s[1].name" % (pt, pt): f_and(A("NAME_CI_EQ"), A("NAME_CS_EQ")),
-            "%s[0].is_relative_to(%s[1])" % (pt, pt): A("IS_RELATIVE"),
-            "%s[1] in %s[0].parents" % (pt, pt): A("IS_RELATIVE"),
-            "%s[0].parent == %s[1]" % (pt, pt): f_and(A("IS_RELATIVE"), A("IS_CHILD")),
-        }
-        if s in table:
-            return table[s]
-        raise AnalysisError("check_each: condition outside the abstraction: %s" % s)
-
-    forms = [(p, path_formula(p, atom)) for p in paths]
-    used = sorted({a for _, f in forms for a in f_atoms(f)})
-    atoms = sorted(set(["SAMEFILE", "ALLOW", "NAME_CI_EQ", "IS_RELATIVE"]) | set(used))
+    cases = [
+        (["/w/a"], None),
+        (["/w/a", "/w/b"], None),
+        (["/w/a", "/w/a"], None),  # the same directory twice is one directory
+        (["/w/a", "/w/a/b"], "NestedRootNamespaceError"),
+        (["/w/a/b", "/w/a"], "NestedRootNamespaceError"),
+        (["/w/a", "/w/a/x/y/z"], "NestedRootNamespaceError"),
+        (["/w/a/x/y/z", "/w/q", "/w/a"], "NestedRootNamespaceError"),
+        (["/w/a", "/v/a"], "name"),
+        (["/w/a", "/v/A"], "name"),
+        (["/w/ab", "/w/a"], None),  # a name that merely starts like another is not nested
+        (["/w/a", "/v/b", "/u/c"], None),
+    ]
     bad = []
-    n = 0
-    for v in valuations(atoms, lambda v: not (v["SAMEFILE"] and not v["NAME_CI_EQ"]) and not (v.get("IS_CHILD") and not v["IS_RELATIVE"]) and not (v.get("NAME_CS_EQ") and not v["NAME_CI_EQ"])):
-        # distinct directories: SAMEFILE pairs are also relative to each other (trivially)
-        if v["SAMEFILE"] and not v["IS_RELATIVE"]:
-            continue
-        taken = [p for p, f in forms if f_eval(f, v)]
-        n += 1
-        if len(taken) != 1:
-            raise AnalysisError("check_each: %d feasible paths for %s" % (len(taken), v))
-        p = taken[0]
-        got = norm(p.value) == "True" if p.kind == "return" else False
-        want = (not v["SAMEFILE"]) and (((not v["ALLOW"]) and v["NAME_CI_EQ"]) or v["IS_RELATIVE"])
-        if got != want:
-            bad.append({"state": {k: v[k] for k in atoms}, "found": "rejected" if got else "accepted"})
-    ctx.count(n)
-    ctx.check(not bad, chk.short, "FAIL <=> !SAMEFILE & ((!ALLOW & NAME_CI_EQ) | IS_RELATIVE)", "rejection must happen exactly for nested roots (at any depth) and, if disallowed, for equal names ignoring case", chk.where(), bad[:4])
-    # all ordered pairs; both failures are InvalidDefinitionErrors
-    src = norm(fn.node)
-    pairs_ok = "product(%s, %s)" % (fn.params[0], fn.params[0]) in src
-    raises = [r for r in ast.walk(fn.node) if isinstance(r, ast.Raise)]
-    ide_ok = len(raises) >= 2 and all(isinstance(exc_class_of(repo, fn.module, None, r.exc), ClassInfo) and repo.is_subclass(exc_class_of(repo, fn.module, None, r.exc), "_error.InvalidDefinitionError") for r in raises)
-    ctx.check(pairs_ok and ide_ok, fn.short, "all ordered pairs; %d InvalidDefinitionError raises" % len(raises), "every ordered pair of directories is examined and each failure kind is an InvalidDefinitionError", fn.where())
+    classes = set()
+    for dirs, want in cases:
+        for allow in (False, True):
+            for order in (dirs, list(reversed(dirs))):
+                try:
+                    call_fn(ctx, fn, [[APath(d) for d in order], allow], hook=R._hook(ctx, fn.module, []), keep=tuple(fn.module.functions))
+                    got = None
+                except Raised as r:
+                    got = r.cls_name
+                    classes.add(got)
+                except Unfoldable as ex:
+                    raise AnalysisError("%s: cannot evaluate over syntactic paths: %s" % (fn.short, ex))
+                ctx.count()
+                exp = want if want != "name" else (None if allow else "RootNamespaceNameCollisionError")
+                if got != exp:
+                    bad.append({"directories": order, "allow_name_collisions": allow, "found": got or "accepted", "expected": exp or "accepted"})
+    ctx.check(not bad, fn.short, "decision over %d directory sets x {allow, disallow} x 2 orders" % len(cases), "rejection must happen exactly for nested roots (at any depth) and, if disallowed, for equal names ignoring case", fn.where(), bad[:4])
+    not_ide = sorted(c for c in classes if not (next((k for k in repo.all_classes().values() if k.name == c), None) is not None and repo.is_subclass(next(k for k in repo.all_classes().values() if k.name == c), "_error.InvalidDefinitionError")))
+    ctx.check(not not_ide and len(classes) >= 2, fn.short, "rejections: %s" % sorted(classes), "every ordered pair of directories is examined and each failure kind is an InvalidDefinitionError", fn.where(), not_ide)
+    # the merged, resolved directory list is what gets checked
     caller = ctx.func("_namespace._construct_lookup_directories_path_list")
-    calls = [c for c in calls_in(caller.node) if dotted(c.func) == fn.name]
-    ctx.check(len(calls) == 1 and [norm(a) for a in calls[0].args] == [caller.params[1], caller.params[2]], caller.short, norm(calls[0]) if calls else "?", "the merged, resolved directory list is what gets checked", caller.where(), nontrivial=False)
+    log: List[Any] = []
+    hook = R._hook(ctx, caller.module, log, record=[fn.name], results={fn.name: None})
+    try:
+        res = call_fn(ctx, caller, [[APath("/w/root")], [APath("/w/look1"), APath("/w/look2")], True], hook=hook, keep=tuple(caller.module.functions))
+    except (Raised, Unfoldable) as ex:
+        raise AnalysisError("%s: cannot evaluate over syntactic paths: %s" % (caller.short, ex))
+    checked = [a for name, a, k in log if name == fn.name]
+    good = len(checked) == 1 and sorted(str(x) for x in checked[0][0]) == ["/w/look1", "/w/look2", "/w/root"] and sorted(str(x) for x in res) == ["/w/look1", "/w/look2", "/w/root"]
+    ctx.check(good, caller.short, "checks and returns root + lookup directories: %s" % sorted(str(x) for x in (checked[0][0] if checked else [])), "the merged, resolved directory list is what gets checked", caller.where(), nontrivial=False)
 
 
 def run(ctx: Ctx) -> None:
